@@ -26,7 +26,8 @@ PIN = "Arca.Pins."
 RUNLOOP_PINS = [
     "workflow_workflow_executableWorkflow_Execute", "workflow_workflow_executableWorkflow_handleOutput",
     "workflow_workflow_loopState_onStageComplete", "workflow_workflow_loopState_markOutputsUnresolvable",
-    "workflow_workflow_loopState_markStageNodeUnresolvable", "workflow_workflow_loopState_notifySteps",
+    "workflow_workflow_loopState_markStageNodeUnresolvable", "workflow_workflow_loopState_markRemainingStagesUnresolvable",
+    "workflow_workflow_loopState_notifySteps",
     "workflow_workflow_loopState_checkForDeadlocks", "workflow_workflow_loopState_terminateAllSteps",
     "workflow_workflow_loopState_getLastError", "workflow_workflow_loopState_reportError",
 ]
@@ -93,7 +94,7 @@ def S_engine(monitor, extra=(), name="engine", n=(150, 1500), seed_off=0):
 
 
 def S_prompt(pid):
-    return {"name": "prompt", "harness": lambda t, s: ["prompt", "-n", "7" if t == "quick" else "28", "-seed", str(s)],
+    return {"name": "prompt", "harness": lambda t, s: ["prompt", "-n", "8" if t == "quick" else "32", "-seed", str(s)],
             "driver": None, "monitor": M.mon_prompt(pid), "nontrivial": lambda c: True,
             "sample": lambda c: {"id": c.get("id"), "shape": c.get("shape"), "workflow_yaml": c.get("yaml", "")[-500:], "result": c.get("result"),
                                  "wall_ms": c.get("wall_ms")}}
@@ -121,7 +122,9 @@ PROPS = {
     "C01": {
         "module": "Arca.Props.C01",
         "theorems": ["Arca.Props.C01.no_blocking_send", "Arca.Props.C01.at_most_one_output", "Arca.Props.C01.no_more_outputs_once",
-                     "Arca.Props.C01.error_buffer_bounded", "Arca.Props.C01.error_capacity_sufficient", "Arca.Props.C01.dead_only_by_panic"],
+                     "Arca.Props.C01.error_buffer_bounded", "Arca.Props.C01.error_capacity_sufficient", "Arca.Props.C01.dead_only_by_panic",
+                     "Arca.Props.C01.completed_step_settles_all_its_stages", "Arca.Props.C01.completed_steps_stay_settled",
+                     "Arca.Props.C01.all_steps_completed_nothing_waits_for_a_step"],
         "pins": RUNLOOP_PINS,
         "streams": [S_loop(mon_c01_loop), S_loop(mon_c01_loop, fanin=True), S_engine(M.mon_c01_engine), S_prompt("C01"),
                     S_foreach_close(M.mon_c01_engine),
@@ -194,14 +197,15 @@ PROPS = {
         "module": "Arca.Props.C07",
         "theorems": ["Arca.Props.C07.legal_history_never_panics", "Arca.Props.C07.legal_callback_never_panics",
                      "Arca.Props.C07.mark_unresolvable_succeeds", "Arca.Props.C07.propagation_fuel_suffices",
-                     "Arca.Props.C07.dead_only_by_panic"],
+                     "Arca.Props.C07.dead_only_by_panic", "Arca.Props.C07.completion_needs_finished_bookkeeping",
+                     "Arca.Props.C07.completion_needs_unambiguous_stage_ids"],
         "pins": RUNLOOP_PINS + RESOLVE_PINS,
         "streams": [S_loop(), S_engine(M.mon_c07_evalfail, extra=["-evalfail"], name="engine-evalfail", n=(250, 2500), seed_off=19)],
         "rule": LOOP_RULE + "; " + ENGINE_RULE + " with expressions that fail at run time (absent optional input, index out of range, "
                 "failing conversion, division by zero); a process crash of the harness is a violation",
     },
     "C09": {
-        "module": "Arca.Props.C09", "theorems": ['Arca.Props.C09.raw_state_window_deploy_race', 'Arca.Props.C09.raw_state_window_enabling', 'Arca.Props.C09.raw_state_window_enabling_report_in_flight', 'Arca.Props.C09.raw_state_window_enabling_provided_while_parked', 'Arca.Props.C09.raw_state_window_starting', 'Arca.Props.C09.raw_state_window_starting_provided_while_parked', 'Arca.Props.C09.raw_state_window_completion_in_flight', 'Arca.Props.C09.raw_state_window_closing', 'Arca.Props.C09.raw_state_window_closing_owes_completion', 'Arca.Props.C09.raw_state_unsound', 'Arca.Props.C09.raw_state_windows_exhaustive', 'Arca.Props.C09.raw_deploy_wait_partial', 'Arca.Props.C09.counted_waiting_not_cancelled', 'Arca.Props.C09.deploy_wait_is_sound', 'Arca.Props.C09.detector_sound_waiting', 'Arca.Props.C09.settled_is_silent', 'Arca.Props.C09.detector_sound_finished_partial', 'Arca.Props.C09.harmless_is_inert', 'Arca.Props.C09.detector_sound_counterexample_failure_tail', 'Arca.Props.C09.detector_sound_counterexample_without_marking', 'Arca.Props.C09.refinement_owes_check', 'Arca.Props.C09.owed_check_is_delivered_or_kept', 'Arca.Props.C09.owed_check_runs', 'Arca.Props.C09.no_lost_check', 'Arca.Props.C09.detector_needs_quiescence_for_three_polls', 'Arca.Props.C09.one_active_poll_stops_detector', 'Arca.Props.C09.short_window_cannot_trigger'], "instrumented": True,
+        "module": "Arca.Props.C09", "theorems": ['Arca.Props.C09.raw_state_window_deploy_race', 'Arca.Props.C09.raw_state_window_enabling', 'Arca.Props.C09.raw_state_window_enabling_report_in_flight', 'Arca.Props.C09.raw_state_window_enabling_provided_while_parked', 'Arca.Props.C09.raw_state_window_starting', 'Arca.Props.C09.raw_state_window_starting_provided_while_parked', 'Arca.Props.C09.raw_state_window_completion_in_flight', 'Arca.Props.C09.raw_state_window_closing', 'Arca.Props.C09.raw_state_window_closing_owes_completion', 'Arca.Props.C09.raw_state_unsound', 'Arca.Props.C09.raw_state_windows_exhaustive', 'Arca.Props.C09.raw_deploy_wait_partial', 'Arca.Props.C09.counted_waiting_not_cancelled', 'Arca.Props.C09.deploy_wait_is_sound', 'Arca.Props.C09.detector_sound_waiting', 'Arca.Props.C09.settled_is_silent', 'Arca.Props.C09.detector_sound_finished_partial', 'Arca.Props.C09.detector_sound_finished', 'Arca.Props.C09.harmless_is_inert', 'Arca.Props.C09.detector_sound', 'Arca.Props.C09.detector_sound_counterexample_failure_tail', 'Arca.Props.C09.detector_sound_counterexample_without_marking', 'Arca.Props.C09.failure_tail_settled_with_marking', 'Arca.Props.C09.loop_marks_remaining_stages_at_completion', 'Arca.Props.C09.refinement_owes_check', 'Arca.Props.C09.owed_check_is_delivered_or_kept', 'Arca.Props.C09.owed_check_runs', 'Arca.Props.C09.no_lost_check', 'Arca.Props.C09.detector_needs_quiescence_for_three_polls', 'Arca.Props.C09.one_active_poll_stops_detector', 'Arca.Props.C09.short_window_cannot_trigger'], "instrumented": True,
         "pins": ["workflow_workflow_loopState_checkForDeadlocks", "workflow_workflow_loopState_countStates",
                  "workflow_workflow_loopState_onStageComplete", "step_plugin_provider_runningStep_State",
                  "step_plugin_provider_runningStep_CurrentStage", "step_plugin_provider_runningStep_currentStageInputAvailable",
